@@ -90,6 +90,9 @@ def gen_store(rng: random.Random, n_traces: int, names: list[str], types: list[s
         tree = rand_tree(rng, n, types, deep=rng.random() < 0.3)
         name = rng.choice(names)
         jid = f"tr{t}"
+        if t % 2 and rng.random() < 0.15:
+            # trace (and span) ids that differ from the previous trace's only in letter case
+            jid = f"TR{t - 1}"
         pos = rng.random()
         t0 = base + int(pos * total)
         span_len = rng.choice([10**6, 10**9, 30 * 10**9, 2 * MIN])
